@@ -2,6 +2,8 @@
    Model: Spec.v.  Sequential / thread try macros check the step's results in branch order. *)
 From Coq Require Import List ZArith Lia.
 From Join Require Import Tok Names Ast Comp Std Denote Spec Leaves SpecProps.
+From Join Require RefineCorollaries.
+From Join Require Ir Gen RefineBase RefineChain RefineProg RefineTop.
 
 (* OBLIGATION try_steps_shape *)
 (* every step of try_join! / try_join_spawn! (any program, any world): after a NON-final step the values of the
@@ -50,3 +52,59 @@ Print Assumptions final_step_transposes.
 Example first_of_two_failures :
   first_fail_from false (fun b => match b with 0 => VOk (VInt 1%Z) | 1 => VErr (VInt 7%Z) | _ => VErr (VInt 9%Z) end) 0 3 = Some 1.
 Proof. reflexivity. Qed.
+
+(* the tie between Spec.v and the generator model, PROVED for all eight kinds and all inputs (theories/proofs/RefineTop.v):
+   what is proved about `spec` above holds of the meaning of the generated code *)
+(* OBLIGATION generated_code_refines_reference_semantics *)
+Theorem generated_code_refines_reference_semantics :
+  forall (msem : string -> option (list operand) -> dval -> list dval -> comp dval)
+         (dotsem : operand -> list (string * option val) -> dval -> comp dval)
+         (callsem : val -> list dval -> comp dval) (awaitsem : val -> comp val),
+    (forall m tf r ds, RefineBase.leaves RefineChain.not_clo (msem m tf r ds)) ->
+    (forall o sn r, RefineBase.leaves RefineChain.not_clo (dotsem o sn r)) ->
+    (forall f ds, RefineBase.leaves RefineChain.not_clo (callsem f ds)) ->
+    forall (cfg : config) (inp : input) (e : Ir.rexpr) (sp : sprog),
+      RefineProg.wf inp -> Gen.gen cfg inp = Ir.Ok e -> prepare cfg inp = Some sp ->
+      den (user_names inp) msem dotsem callsem awaitsem e empty_env = spec msem dotsem callsem awaitsem sp.
+Proof. exact RefineTop.gen_refines_spec. Qed.
+Print Assumptions generated_code_refines_reference_semantics.
+
+(* OBLIGATION generated_try_code_first_step *)
+(* the generated code of try_join! / try_join_spawn! IS: step 0 to its end, then the lowest-numbered failing value as is, or the next steps *)
+Theorem generated_try_code_first_step :
+  forall
+    (msem : String.string ->
+            option (list Tok.operand) -> Comp.dval -> list Comp.dval -> Comp.comp Comp.dval)
+    (dotsem : Tok.operand -> list (String.string * option Comp.val) -> Comp.dval -> Comp.comp Comp.dval)
+    (callsem : Comp.val -> list Comp.dval -> Comp.comp Comp.dval)
+    (awaitsem : Comp.val -> Comp.comp Comp.val),
+  (forall (m : String.string) (tf : option (list Tok.operand)) (r : Comp.dval) (ds : list Comp.dval),
+   RefineBase.leaves RefineChain.not_clo (msem m tf r ds)) ->
+  (forall (o : Tok.operand) (sn : list (String.string * option Comp.val)) (r : Comp.dval),
+   RefineBase.leaves RefineChain.not_clo (dotsem o sn r)) ->
+  (forall (f : Comp.val) (ds : list Comp.dval), RefineBase.leaves RefineChain.not_clo (callsem f ds)) ->
+  forall (cfg : Ast.config) (inp : Ast.input) (e : Ir.rexpr) (sp : Spec.sprog),
+  Ast.is_async cfg = false ->
+  Ast.is_try cfg = true ->
+  Ast.i_handler inp = None ->
+  RefineProg.wf inp ->
+  Gen.gen cfg inp = Ir.Ok e ->
+  Spec.prepare cfg inp = Some sp ->
+  Denote.den (Spec.user_names inp) msem dotsem callsem awaitsem e Denote.empty_env =
+  Comp.bind (Spec.step_result msem dotsem callsem awaitsem sp 0 (RefineCorollaries.init_state sp))
+    (fun sr : Comp.dval =>
+     Comp.bind (Spec.extract (Spec.actives sp 0) sr)
+       (fun ds : list Comp.dval =>
+        let st' := Spec.set_all (RefineCorollaries.init_state sp) (Spec.actives sp 0) ds in
+        if PeanoNat.Nat.eqb (Spec.max_depth sp - 1) 0
+        then Spec.transpose awaitsem sp (List.seq 0 (Datatypes.length (Spec.sp_trees sp))) st'
+        else
+         if SpecProps.all_classified ds
+         then
+          match SpecProps.first_fail_list ds with
+          | Some d => Comp.Ret d
+          | None => Spec.steps msem dotsem callsem awaitsem sp (Spec.max_depth sp - 1) 1 st'
+          end
+         else Comp.Panic Comp.P_ILLTYPED)).
+Proof. exact (@RefineCorollaries.den_gen_try_first_step). Qed.
+Print Assumptions generated_try_code_first_step.
